@@ -54,7 +54,7 @@ def standard_check(ctx, spec):
     # 4. cases
     cases = load_corpus(prop) + spec['gen_cases'](ctx.rng, ctx.tier)
     lines = [c[0] for c in cases]
-    impl_raw = vlib.run_lines(impl, lines, timeout=spec.get('impl_timeout', 900), shards=spec.get('impl_shards', 8))
+    impl_raw = vlib.run_lines(impl, lines, timeout=spec.get('impl_timeout', 300), shards=spec.get('impl_shards', 8))
     impl_out, verdicts = zip(*[vlib.split_impl(l) for l in impl_raw]) if impl_raw else ((), ())
     model_out = None
     if runner is not None:
